@@ -188,7 +188,9 @@ func TestC19(t *testing.T) {
 		}
 		// answers are compared as values: JSON objects are canonicalised (the proposal query renders
 		// its voter map in Go's random map order, which is presentation, not content)
-		same := func(a, b qAnswer) bool { return a.Code == b.Code && bytes.Equal(canonJSON(a.Value), canonJSON(b.Value)) }
+		same := func(a, b qAnswer) bool {
+			return a.Code == b.Code && bytes.Equal(canonJSON(a.Value), canonJSON(b.Value))
+		}
 
 		// one re-ask; `touched` = accounts changed by successful txs of the executing block so far
 		reask := func(c *Case, inj Injected, touched map[string]bool) {
